@@ -220,6 +220,35 @@ def fix_scaled(rng, tree):
     return tree
 
 
+def unalign_scaled(rng, tree):
+    """move limits of scaled leaves off the grid (outside the quantifier: only the description is judged there, and the model
+    of export / get_datatype / copy is compared with the real code): a fraction of a step, one ulp, a decimal literal"""
+    t = tree['t']
+    if t == 'scaled':
+        s, lo, hi = _f(tree['scale']), _f(tree['min']), _f(tree['max'])
+
+        def off(x):
+            r = rng.random()
+            if r < 0.25:
+                return x
+            if r < 0.6:
+                return x + rng.choice([0.1, -0.1, 0.3, -0.3, 0.49, -0.49, 0.5, -0.5]) * s
+            if r < 0.8:
+                return math.nextafter(x, rng.choice([math.inf, -math.inf]))
+            return float('%.6g' % x)
+        lo2, hi2 = off(lo), off(hi)
+        if not lo2 <= hi2:
+            lo2, hi2 = lo, off(hi) if off(hi) >= lo else hi
+        return dict(tree, min=fj(lo2), max=fj(hi2))
+    if t == 'array':
+        return dict(tree, elem=unalign_scaled(rng, tree['elem']))
+    if t == 'tuple':
+        return dict(tree, elems=[unalign_scaled(rng, e) for e in tree['elems']])
+    if t == 'struct':
+        return dict(tree, members=[[k, unalign_scaled(rng, m)] for k, m in tree['members']])
+    return tree
+
+
 def permute_optional(rng, tree):
     """structs whose members are all optional: sometimes name them in another order (the datainfo leaves `optional` out)"""
     t = tree['t']
@@ -237,7 +266,10 @@ def permute_optional(rng, tree):
 
 
 def gen_di(rng, maxdepth, kind=None):
-    tree = permute_optional(rng, fix_scaled(rng, gen.gen_tree(rng, maxdepth, kind)))
+    tree = fix_scaled(rng, gen.gen_tree(rng, maxdepth, kind))
+    if rng.random() < 0.12:
+        tree = unalign_scaled(rng, tree)
+    tree = permute_optional(rng, tree)
     if tree['t'] == 'string' and rng.random() < 0.3:
         tree = dict(tree, min=rng.choice([1, 3, 5]), max=gen.UNLIMITED)
     if rng.random() < 0.25:
@@ -1672,6 +1704,8 @@ def run(ctx):
                 res.count(f'{k}.built=' + str(impl['built']).lower())
                 for qc in quotient_classes(c['tree']):
                     res.count('scaled.limit/scale=' + str(qc))
+                if any(True for _ in scaled_leaves(c['tree'])):
+                    res.count(f'{k}.scaled-limits=' + ('grid-aligned' if ans.get('aligned') else 'not-aligned(description only)'))
                 for p in impl['probes']:
                     res.count('probe.original=' + ('ok' if isinstance(p['o'], dict) and 'ok' in p['o'] else 'bad' if p['o'] == 'bad' else 'other'))
                 if c['tree']['t'] in gen.CONTAINER_KINDS or json.dumps(impl['datainfo']).count('[') > 3:
